@@ -250,13 +250,32 @@ func (c *c18) RunCase(w *core.Worker, idx int, seed uint64, res *core.CaseResult
 		}
 		mark := drv.Mark()
 		committedBefore := len(drv.Committed)
-		_, ok := run.commit(step)
+		ffOut, ok := run.commit(step)
 		calls := drv.Since(mark)
 		if !ok {
 			return
 		}
 		res.Count("fault_free_sets", 1)
 		judge(fmt.Sprintf("step %d fault-free", s), calls, nil, 0, "")
+		// exactly one edit-config if and only if the transaction changes something
+		nChange := len(ffOut.rsp.GetUpdate()) + len(ffOut.rsp.GetDelete())
+		nEditFF := 0
+		for _, cl := range calls {
+			if cl.Method == "EditConfig" {
+				nEditFF++
+			}
+		}
+		switch {
+		case nChange > 0 && nEditFF == 0:
+			res.Violate("C18/change-not-sent", "step %d [%s]: the transaction changes the device (%s) but no edit-config was sent and Set reported success", s, cfgDesc, fixture.PayloadKey(ffOut.rsp.GetUpdate(), ffOut.rsp.GetDelete()))
+		case nChange == 0 && nEditFF > 0:
+			res.Violate("C18/edit-sent-without-change", "step %d [%s]: the transaction changes nothing but an edit-config was sent: %s", s, cfgDesc, describeCalls(calls))
+		}
+		if nChange > 0 {
+			res.Count("fault_free_sets_with_change", 1)
+		} else {
+			res.Count("fault_free_sets_without_change", 1)
+		}
 		if commitDS == "candidate" && len(drv.Committed) > committedBefore {
 			last := drv.Committed[len(drv.Committed)-1]
 			if len(last) != 1 {
